@@ -80,8 +80,8 @@ def lint(project, source, filename=None, debug=False):
             continue
         if isinstance(flow.scope, IGNORED_SCOPES):
             if isinstance(name, ImportedName):
-                if name.module == '__future__':
-                    continue
+                if name.module == '__future__' and name.mname:
+                    continue  # from __future__ import x
                 if name.name in qualified_imports:
                     continue
                 w = 'W02'
